@@ -14,85 +14,98 @@ PROPS = {
         "oracle": (20000, 400000),
         "rule": "hostile frames: every prefix of valid frames (re-framed), single length-field mutations, all 16 type nibbles "
                 "over valid bodies, random bytes; ReadPacket and UnmarshalBinary of the frame's and a random type; "
-                "non-trivial = frames longer than 2 bytes, distinct by frame bytes",
+                "non-trivial = frames longer than 2 bytes, distinct by frame bytes; plus property soup (any of the 27 defined properties, repeated, in any packet type), CONNECT bodies under all 256 flag bytes, headers of 4..65536 continuation bytes",
     },
     "C05": {
         "suites": [("read", 4000, 60000), ("unm", 3000, 40000)],
         "oracle": (20000, 400000),
-        "rule": "as C04 under a watchdog, plus list-length <= frame bytes and allocation <= 64*(declared+actual)+64KiB; "
-                "non-trivial = frames longer than 2 bytes",
+        "rule": "as C04 under a watchdog, plus list-length <= frame bytes and allocation <= 64*(declared+actual)+32KiB (smallest of four measurements), "
+                "0xFFFF-style length prefixes in short frames, frames with 3000/6000 small list elements, frames above 64 KiB inside longer streams, "
+                "packets watched for growth after they were returned; non-trivial = frames longer than 2 bytes",
     },
     "C06": {
         "suites": [("read", 4000, 60000)],
         "oracle": (3000, 60000),
         "rule": "streams of 1-6 frames (valid, content-malformed, empty) plus trailing bytes under random fragmentation; "
-                "per call: bytes consumed = frame size, result = result of the frame alone; non-trivial = >= 2 frames",
+                "per call: bytes consumed = frame size, result = result of the frame alone; the same streams through bytes.Buffer/bytes.Reader/strings.Reader/bufio/iotest readers; "
+                "packets and error values returned earlier re-examined after later reads; zero-padded lengths, property soup, >64 KiB frames; non-trivial = >= 2 frames",
     },
     "C07": {
         "suites": [("read", 4000, 60000)],
         "oracle": (1500, 30000),
         "rule": "frames of <= 10 bytes: every composition into chunks x zero-length reads x EOF style (exhaustive); "
-                "longer frames: random schedules and bytewise delivery; non-trivial = more than one chunk",
+                "longer frames: random schedules and bytewise delivery; every third frame through eleven standard-library reader types; sequences of 2-4 frames "
+                "(valid, rejected, zero-padded lengths) with each call compared to its frame alone; non-trivial = more than one chunk",
     },
     "C08": {
         "suites": [("read", 4000, 60000)],
         "oracle": (1500, 30000),
         "rule": "frames x every cut offset (<=40 bytes exhaustively) x fault in the same call as the last bytes / in the "
-                "next call x io.EOF / injected transport error; non-trivial = cut after the first byte",
+                "next call x io.EOF / transport errors (custom, wrapping io.EOF, Temporary/Timeout, standard sentinels, %w-wrapped); cuts through the standard reader types; "
+                "PUBLISH frames above 64 KiB; a nil pointer inside the interface counts as a packet; non-trivial = cut after the first byte",
     },
     "C16": {
         "suites": [("read", 4000, 60000)],
         "oracle": (300, 3000),
-        "rule": "all 256 first bytes x up to 12 bodies valid for the selected type (incl. empty); non-trivial = low nibble != 0",
+        "rule": "all 256 first bytes x up to 12 bodies valid for the selected type (incl. empty); type-0 frames of 64 KiB..2 MiB, SUBACK/UNSUBACK/PINGREQ/ack/DISCONNECT "
+                "frames of 16 KiB..2.1 MB; non-trivial = low nibble != 0",
     },
     "C10": {
         "suites": [("write", 3000, 60000), ("render", 1500, 20000)],
         "oracle": (3000, 60000),
         "rule": "packets of every type (C01 domain and malformed-but-constructible) x writers: accept, fail before writing, "
-                "accept k bytes for every k < frame length (frames <= 64 bytes exhaustively); String size; non-trivial = at least one setter call",
+                "accept k bytes for every k < frame length (frames <= 64 bytes exhaustively); String size; read-only calls inside the history; every string field with "
+                "65533..65535 bytes; property sections of exactly 128k bytes; Undefined values that carry data; non-trivial = at least one setter call",
     },
     "C11": {
         "suites": [("write", 3000, 60000), ("hist", 1500, 30000)],
         "oracle": (2000, 40000),
         "rule": "each packet encoded 33 times in process interleaved with random read-only operations, rebuilt from the same history, "
-                "and written by 4 fresh processes (different map hash seeds); accessor snapshot before/after; non-trivial = >= 2 setter calls",
+                "and written by 4 fresh processes (different map hash seeds); accessor snapshot before/after; wills changed after attaching, filters from a reused slice, "
+                "pollution by earlier decodes + canary, 60 decoded packets re-encoded 2.1 s and 200 foreign decodes later; non-trivial = >= 2 setter calls",
     },
     "C12": {
         "suites": [("hist", 3000, 60000)],
         "oracle": (3000, 60000),
         "rule": "all histories of length <= 3 (2 for CONNECT) over the flag-affecting setters with every value, plus random histories of 1-12 calls "
-                "from boundary-biased values; after every step all accessors vs an independent last-write-wins record; non-trivial = >= 2 calls",
+                "from boundary-biased and dictionary values; after every step all accessors vs an independent last-write-wins record; read-only calls, accessor-to-setter feeds, "
+                "several filters / user properties in one call, recycled caller variables, hash-colliding names inside histories; non-trivial = >= 2 calls",
     },
     "C17": {
         "suites": [("hist", 3000, 60000), ("render", 1500, 20000)],
         "oracle": (2000, 40000),
         "rule": "Publish: topic x alias x QoS 0..4 x packet id x other fields (full product); Subscribe: 0-3 filters x 9 subscription ids around "
-                "the boundary x all 256 option bytes x empty/non-empty; built and decoded; all are non-trivial",
+                "the boundary and around 2^32/2^63 x all 256 option bytes x empty/non-empty; built and decoded; accessors first compared with the record of the calls; "
+                "read-only calls inside histories, decoded packets printed then modified, QoS lowered and raised; all are non-trivial",
     },
     "C18": {
         "suites": [("render", 3000, 40000)],
         "oracle": (3000, 60000),
         "rule": "CONNECT packets (random fields, will, properties) x pairs of equally long credentials, also coinciding with client id, "
-                "user property value, will payload or auth data; built and decoded; String and Dump compared byte for byte",
+                "user property value, will payload or auth data; built and decoded; String and Dump compared byte for byte; credentials set anywhere in the history, "
+                "dictionary strings (byte order mark, %u), an earlier password fed into a clear field, 65534..70000-byte credentials",
     },
     "C19": {
         "suites": [("render", 3000, 40000)],
         "oracle": (3000, 60000),
         "rule": "zero values and constructor values of all 16 types, all 256 values of each rendered byte (hooks and through decoded packets), "
-                "setter histories, successful and failed decodes of hostile frames; String and Dump under recover and a watchdog",
+                "setter histories (dictionary strings), wills taken away / attached twice / changed, a 256 MiB PUBLISH, successful and failed decodes of hostile frames; "
+                "String and Dump under recover and a watchdog",
     },
     "C01": {
         "suites": [("hist", 3000, 60000), ("read", 3000, 60000), ("wire", 2000, 30000)],
         "oracle": (4000, 150000),
         "rule": "packets of the C01 domain: 15 types x random subsets of optional fields x boundary-biased values (lengths 0,1,127,128,16383,"
                 "16384,65534,65535; payloads moving the remaining length over its four forms) plus random setter histories; write, read, compare "
-                "every accessor, re-encode; non-trivial = at least one setter call, distinct by history",
+                "every accessor, re-encode, also read back in halves/bytewise; every string field with 65533..65535 bytes, property sections of exactly 128k bytes, "
+                "wills attached twice, protocol-name look-alikes, after pollution by rejected and foreign frames; non-trivial = at least one setter call, distinct by history",
     },
     "C02": {
         "suites": [("hist", 3000, 60000), ("write", 2000, 40000)],
         "oracle": (4000, 150000),
         "rule": "well-formed packets of the C01 domain (same generators, mandatory list elements added); WriteTo bytes judged by the extracted "
-                "strict specification decoder and its reading compared with all accessors; non-trivial = at least one setter call",
+                "strict specification decoder and its reading compared with all accessors and these with the record of the calls; after pollution by earlier decodes; "
+                "packets built with the exported constants; non-trivial = at least one setter call",
     },
     "C03": {
         "theorem_files": ["Properties/C03.v", "Findings/C03_disconnect.v"],
@@ -100,7 +113,7 @@ PROPS = {
         "oracle": (4000, 150000),
         "rule": "frames from the specification's encoder over random abstract packets: 15 types x property subsets x random permutations x "
                 "explicit zeros x repeated user properties/subscription ids x short/long forms x boundary lengths; ReadPacket must accept and "
-                "report the carried values; non-trivial = frame longer than 2 bytes",
+                "report the carried values, also with EOF-with-data, in two pieces and through standard readers; dictionary strings; after pollution; non-trivial = frame longer than 2 bytes",
     },
     "C09": {
         "suites": [("read", 3000, 60000), ("unm", 3000, 40000), ("wire", 2000, 30000)],
@@ -108,7 +121,8 @@ PROPS = {
         "rule": "valid frames (C03 generator) x every interior cut of every 2/4-byte integer, string, property length and property per the "
                 "specification's field map (all offsets for fields <= 6 bytes), 5-byte variable byte integers at remaining length, property "
                 "length and subscription identifier, boolean properties with values 2..255, undefined identifiers after j valid properties; "
-                "each also rejected by the strict specification decoder; all non-trivial",
+                "each also rejected by the strict specification decoder; the same bodies under other flag nibbles; stray subscription identifiers with bad values in every "
+                "packet type; source frames with empty filters and 64K keys; all non-trivial",
     },
     "C13": {
         "suites": [("write", 1500, 20000), ("render", 1000, 10000)],
@@ -117,7 +131,8 @@ PROPS = {
         "coqchk": True,
         "rule": "binary built with the Go race detector: per generated packet of every type 8 goroutines x 20 random read-only operations "
                 "(WriteTo, String, Dump, WellFormed, accessors, direct use of a shared will message, ReadPacket on private streams); bytes/text "
-                "compared with the sequential result; all non-trivial",
+                "compared with the sequential result; a second packet of the same type written concurrently; shared packets that came from the wire; failed writes "
+                "and pollution before the campaign; all non-trivial",
         "assumptions": ["the Go memory model, runtime and standard library are outside the model",
                         "absence of shared writes in the Go read-only API is established by the race detector campaign, not by proof"],
     },
@@ -126,7 +141,8 @@ PROPS = {
         "oracle": (2000, 60000),
         "rule": "decode (UnmarshalBinary of every type incl. Undefined), snapshot, overwrite the input with its complement, snapshot again; pools of 6 "
                 "decoded packets x 12 operations (setters, writes into returned slices, encode/render, re-decode) with bystander snapshots; "
-                "package-level protocol name unchanged; non-trivial = body longer than 2 bytes / every pool step",
+                "package-level protocol name unchanged; twin frames decoded in both orders; filters, wills, passwords, payloads handed from one packet to another which is "
+                "then decoded into / cleared; pollution + canary; non-trivial = body longer than 2 bytes / every pool step",
         "assumptions": ["aliasing in the Go heap is observed by the scribble and pool oracles; the model's provenance annotations are hand-written"],
     },
 }
